@@ -1,5 +1,6 @@
 import Exetera.Props.C04
 import Exetera.Lemmas.GenKernelsMapValid
+import Exetera.Lemmas.GenKernelsExtents
 /-!
   C04 over the TRANSLATED kernels `map_valid` and `ordered_map_valid_partial` (`Gen/Kernels.lean`, regenerated from
   operations.py by tools/translate_njit.py on every run).
@@ -63,5 +64,29 @@ theorem gen_ordered_map_valid_partial_spec (src m : List Int) (inv empty : Int) 
     (fun sm k h1' h2' hm hk => by have := (hwin sm k h1' h2' hm hk).1; omega) h1
 
 example : ordered_map_valid_partial.run [20, 30] [2, -1, 1, 2] 0 4 1 [7, 7, 7, 7] (-1) 0 4 = .ok (4, [30, 0, 20, 30]) := rfl
+
+/-! ## get_valid_value_extents -/
+
+/-- for every fuel ≥ end − start the translated kernel and the model agree on EVERY input — same pair, or the same error class
+    (an out-of-range subscript; Python's UnboundLocalError for `end ≤ start`, where the `while` condition reads the loop
+    variable of a `for` that never ran) -/
+theorem gen_get_valid_value_extents_refines (m : List Int) (start end_ : Nat) (inv : Int) (fuel : Nat)
+    (hf : end_ - start ≤ fuel) :
+    Sim (get_valid_value_extents.run m start end_ inv fuel) (getValidValueExtents m start end_ inv) :=
+  get_valid_value_extents_refines m start end_ inv fuel hf
+
+/-- the translated `get_valid_value_extents` on a non-empty range inside the chunk: reads in bounds, both loops end, and it
+    returns the marker twice when the range holds no valid entry, else the first and the last valid entry -/
+theorem gen_extents_correct (m : List Int) (s e : Nat) (inv : Int) (hse : s < e) (he : e ≤ m.length) (fuel : Nat)
+    (hf : e - s ≤ fuel) :
+    ∃ d, get_valid_value_extents.run m s e inv fuel = .ok d ∧
+      ((d.1 = inv ∧ ∀ p, s ≤ p → p < e → m[p]? = some inv) ∨
+       (d.1 ≠ inv ∧ d.2 ≠ inv ∧ ∃ p0 p1, s ≤ p0 ∧ p0 ≤ p1 ∧ p1 < e ∧ m[p0]? = some d.1 ∧ m[p1]? = some d.2 ∧
+          ∀ q x, s ≤ q → q < e → m[q]? = some x → x ≠ inv → p0 ≤ q ∧ q ≤ p1)) := by
+  obtain ⟨d, hd, hspec⟩ := C04.extents_correct m s e inv hse he
+  exact ⟨d, (get_valid_value_extents_refines m s e inv fuel hf).ok_right hd, hspec⟩
+
+example : get_valid_value_extents.run [-1, 4, -1, 6, -1] 0 5 (-1) 5 = .ok (4, 6) := rfl
+example : get_valid_value_extents.run [-1, 4, -1, 6, -1] 3 3 (-1) 5 = .error (.other "UnboundLocalError") := rfl
 
 end Exetera.Props.C04Gen
